@@ -1,5 +1,13 @@
-"""Engine-class part of C07 (NoForeignRandomness); filled in with the engine harness."""
+"""Engine-class part of C07: every random number drawn in-process for a move comes from the job's
+streams, in every engine class (recorded modify_velocities calls validated by TraceVelocity.tla)."""
+
+from harness import common
+from harness.checks import c16
 
 
 def run(sc, tier):
-    return None
+    work = common.tmpdir("c07e-")
+    try:
+        c16.collect(sc.chk, tier, work, "C07", {"V_NoForeign", "V_Reproducible", "V_StreamAdvances"})
+    finally:
+        common.rmtree(work)
